@@ -296,7 +296,13 @@ class RefServer:
             out = b""
             self.last_listing_literals = []
             for name in self.scripts:
-                if self.choice.literal_names and self.r.random() < 0.5:
+                if self.choice.literal_names == "safe":
+                    # every name goes out as a literal, except where the client's reading of literal names is a pinned
+                    # finding (KF-C17-1: the active script's line, a name beginning with a quote)
+                    as_literal = name != self.active and not name.startswith(b'"') and b"\r" not in name and b"\n" not in name
+                else:
+                    as_literal = self.choice.literal_names and self.r.random() < 0.5
+                if as_literal:
                     enc = literal(name)
                     self.last_listing_literals.append(name)
                 else:
